@@ -221,12 +221,14 @@ def get_folding_profile_section(
     if profile is None:
         str_ += "Could not determine folding profile\n"
     else:
-        delta = round(Decimal(window[2]),2)
+        w_min, w_max, w_step = (float(x) for x in window)
+        tol = 1e-6
         for (ph, dg) in profile:
-            ph = round(Decimal(ph), 3)
-            if ph >= window[0] and ph <= window[1]:
-                rest = (ph - round(Decimal(window[0]), 3)) % delta
-                if min(rest, delta - rest) < Decimal("0.005"):
+            if w_min - tol <= ph <= w_max + tol:
+                # nearest window point w_min + k*w_step; print the grid
+                # point only if it coincides with it
+                k = round((ph - w_min) / w_step) if w_step > 0 else 0
+                if w_step <= 0 or abs(ph - (w_min + k * w_step)) < tol:
                     str_ += "{0:>6.2f}{1:>10.2f}\n".format(ph, dg)
         str_ += "\n"
     if ph_opt is None or dg_opt is None:
